@@ -908,3 +908,50 @@ impl LightClientProtocol {
         Some(content)
     }
 }
+
+// Verification hooks: re-exports of module-private items and of the `#[cfg(test)]` setters /
+// private timer bodies, compiled only with `--cfg nervosnetwork_ckb_light_client_verif`.
+#[cfg(nervosnetwork_ckb_light_client_verif)]
+pub(crate) mod verif_exports {
+    pub(crate) use super::components::{
+        check_continuous_headers, check_if_response_is_matched, verify_extra_hash,
+        verify_mmr_proof, verify_tau, verify_total_difficulty, EpochDifficultyTrend,
+        EstimatedLimit,
+    };
+    pub(crate) use super::constant;
+    pub(crate) use super::peers::*;
+    pub(crate) use super::sampling::{
+        estimate_k, estimate_samples_count, multiply, sample_blocks, FlyClientPDF,
+    };
+}
+
+#[cfg(nervosnetwork_ckb_light_client_verif)]
+impl LightClientProtocol {
+    pub(crate) fn verif_set_last_n_blocks(&mut self, last_n_blocks: BlockNumber) {
+        self.last_n_blocks = last_n_blocks;
+    }
+
+    pub(crate) fn verif_set_init_blocks_in_transit_per_peer(&mut self, value: usize) {
+        self.init_blocks_in_transit_per_peer = value;
+    }
+
+    pub(crate) fn verif_set_mmr_activated_epoch(&mut self, mmr_activated_epoch: EpochNumber) {
+        self.mmr_activated_epoch = mmr_activated_epoch;
+    }
+
+    pub(crate) fn verif_finalize_check_points(&mut self, nc: &dyn CKBProtocolContext) {
+        self.finalize_check_points(nc)
+    }
+
+    pub(crate) fn verif_refresh_all_peers(&mut self, nc: &dyn CKBProtocolContext) {
+        self.refresh_all_peers(nc)
+    }
+
+    pub(crate) fn verif_fetch_headers_txs(&mut self, nc: &dyn CKBProtocolContext) {
+        self.fetch_headers_txs(nc)
+    }
+
+    pub(crate) fn verif_get_idle_blocks(&mut self, nc: &dyn CKBProtocolContext) {
+        self.get_idle_blocks(nc)
+    }
+}
